@@ -72,7 +72,10 @@ def verify_relational(make_ctx, reg, name, timeout_ms=10000):
             env = {}
             share = idx == 1 and "vary" in rel and quals[0] == quals[1]
             k0 = reg.classes.get(recv)
-            if is_init:
+            static = fi.kind in ("static", "function")
+            if static:
+                selfv = None
+            elif is_init:
                 selfv = run.alloc(HObj(recv, {}))
             elif share:
                 # second run: the *same* symbolic pre-state except for the varied fields (identical statistics)
@@ -85,8 +88,9 @@ def verify_relational(make_ctx, reg, name, timeout_ms=10000):
                     run.obj(selfv).fields[f] = reg.make_symbolic(it, k0["fields"][f], "self2.%s" % f, fresh=False)
             else:
                 selfv = reg.make_object(it, recv, "self" + sfx, fresh=False)
-            pn = [a.arg for a in fi.node.args.args][1:]
-            env["self"] = selfv
+            pn = [a.arg for a in fi.node.args.args][(0 if static else 1):]
+            if not static:
+                env["self"] = selfv
             for p in pn:
                 ty = c["params"].get(p) or rel.get("params", {}).get(p)
                 if ty is None:
@@ -100,7 +104,8 @@ def verify_relational(make_ctx, reg, name, timeout_ms=10000):
         joint = {}
         for idx, (fi, ci, env, pn, is_init, c, recv) in enumerate(envs):
             sfx = str(idx + 1)
-            joint["self" + sfx] = env["self"]
+            if "self" in env:
+                joint["self" + sfx] = env["self"]
             for p in pn:
                 joint[p + sfx] = env[p]
         run.inputs = dict(joint)
@@ -109,7 +114,7 @@ def verify_relational(make_ctx, reg, name, timeout_ms=10000):
         for idx, (fi, ci, env, pn, is_init, c, recv) in enumerate(envs):
             fr = X.Frame(dict(env), fi, fi.cls, module=fi.module)
             k = reg.classes.get(recv)
-            if k is not None and not is_init:
+            if k is not None and not is_init and "self" in env:
                 for inv in k["invariant"]:
                     _t, txt = clause_parts(inv, dtags)
                     run.assume(zbool(reg.eval_clause(it, txt, fr, old=None)))
@@ -123,7 +128,7 @@ def verify_relational(make_ctx, reg, name, timeout_ms=10000):
         outs = []
         for idx, (fi, ci, env, pn, is_init, c, recv) in enumerate(envs):
             fr = X.Frame(dict(env), fi, fi.cls, module=fi.module)
-            args = [env["self"]] + [env[p] for p in pn]
+            args = ([env["self"]] if "self" in env else []) + [env[p] for p in pn]
             try:
                 callenv = it.bind(fi.node, list(args), {}, fr, None, fr)
                 nf = X.Frame(callenv, fi, fi.cls, module=fi.module)
